@@ -1,5 +1,5 @@
 """C06 - a failed or interrupted WARC append never damages earlier records."""
-from harness.common import hit, nosym
+from harness.common import hit, nosym, pick
 from harness import fakefs
 from vlib.spec import H
 import wpull.warc.recorder as R
@@ -136,18 +136,22 @@ def _kill_leaves_journal(old, existed, block, kill_at, torn, compress, torn_all=
     return arch == old or arch == full
 
 
-def _refuses_to_start(which, compress, max_size, appending):
+_PREFIXES = ['x', 'foo[1]', 'a*b', 'q?', 'dir.d/x-y', '[!a]', 'x[']
+
+
+def _refuses_to_start(which, compress, max_size, appending, prefix_i=0):
     fs = fakefs.FS()
     fakefs.install(R, fs)
     ext = '.warc.gz' if compress else '.warc'
-    names = ['x' + ext, 'x-00000' + ext, 'x-meta' + ext, 'x-00003' + ext]
+    x = pick(_PREFIXES, prefix_i)
+    names = [x + ext, x + '-00000' + ext, x + '-meta' + ext, x + '-00003' + ext]
     if which < 4:
         fs.files[names[which]] = b'old'
         fs.files[names[which] + '-wpullinc'] = b'wpull-journal-version:1\noffset:3\n'
     params = R.WARCRecorderParams(compress=compress, log=False, max_size=1000 if max_size else None, appending=appending)
     try:
         with nosym():
-            R.WARCRecorder('x', params=params)
+            R.WARCRecorder(x, params=params)
     except OSError:
         hit('refused')
         return which < 4
@@ -178,9 +182,10 @@ HARNESSES = [
       funcs=['wpull/warc/recorder.py:WARCRecorder.write_record'],
       doc='for every operation at which the process dies (incl. torn writes): the snapshot has a complete journal naming the '
           'pre-append length with the old bytes intact below it, or the archive is old / old + the complete record'),
-    H('refuses_to_start', '_refuses_to_start', 'which: int, compress: bool, max_size: bool, appending: bool',
-      pre=['0 <= which <= 4'], timeout={'quick': 120, 'thorough': 300},
-      samples=[(0, False, False, False), (4, True, True, True)], need=['refused', 'started'],
+    H('refuses_to_start', '_refuses_to_start', 'which: int, compress: bool, max_size: bool, appending: bool, prefix_i: int',
+      pre=['0 <= which <= 4 and 0 <= prefix_i < %d' % len(_PREFIXES)], timeout={'quick': 120, 'thorough': 300},
+      samples=[(0, False, False, False, 0), (4, True, True, True, 1)], need=['refused', 'started'],
       funcs=['wpull/warc/recorder.py:WARCRecorder.__init__', 'wpull/warc/recorder.py:WARCRecorder._check_journals_and_maybe_raise'],
-      doc='constructing a recorder raises OSError iff a leftover journal exists for the archive, a numbered archive or the meta archive'),
+      doc='constructing a recorder raises OSError iff a leftover journal exists for the archive, a numbered archive or the meta archive - '
+          'also for --warc-file prefixes containing shell pattern characters ([ ] * ?), matched with real fnmatch semantics'),
 ]
